@@ -12,7 +12,8 @@ use crate::common::*;
 use crate::refmodel::Gf;
 use raptorq::verif::Octet;
 use raptorq::SymbolSlab;
-use std::sync::atomic::Ordering::Relaxed;
+use raptorq::verif::BinaryOctetVec;
+use std::sync::atomic::{AtomicU64, Ordering::Relaxed};
 
 // ---------------------------------------------------------------------------------------------
 // guard-page monitor
@@ -411,7 +412,7 @@ fn matrix(ctx: &Ctx) {
     if let Some(w) = ctx.args.ex("maxw") {
         super::c16walk::WIDTH_CAP.store(w.parse().expect("maxw"), Relaxed);
     }
-    let st: [std::sync::atomic::AtomicU64; 8] = Default::default();
+    let st: [std::sync::atomic::AtomicU64; 10] = Default::default();
     let nthreads = ctx.args.ex_u64("threads", threads() as u64) as usize;
     par_for_threads(nthreads, n, |i| {
         let mut x = ctx.seed().wrapping_mul(77) ^ i as u64 ^ 0x1216;
@@ -419,6 +420,158 @@ fn matrix(ctx: &Ctx) {
         ctx.eval(1);
     });
     ctx.cov("matrix_sequences", J::i(n));
+}
+
+/// Hostile inputs through the public interface: payloads whose length is not the symbol size,
+/// operands of unequal length, out-of-range indices. Refusing (a panic) is fine, an answer is fine —
+/// the only thing watched is memory: the tool running this workload (ASan / Miri / valgrind) must stay
+/// silent, and an answer must never be longer than the transfer length.
+fn hostile(ctx: &Ctx) {
+    use raptorq::{Decoder, Encoder, EncodingPacket, ObjectTransmissionInformation as Oti, SourceBlockDecoder, SourceBlockEncoder};
+    let n = ctx.args.ex_u64("n", 300) as usize;
+    let nthreads = ctx.args.ex_u64("threads", threads() as u64) as usize;
+    let refused = AtomicU64::new(0);
+    let answered = AtomicU64::new(0);
+    let kernel_probes = AtomicU64::new(0);
+    par_for_threads(nthreads, n, |i| {
+        let mut rng = Rng::derive(ctx.seed(), 0x1217, i as u64);
+        // ---- malformed packets to the block decoder ----
+        let K = *rng.pick(&[1usize, 3, 10, 11, 13, 26, 27, 40]);
+        let T = *rng.pick(&[1usize, 2, 7, 8, 16, 33, 64]);
+        let data = rng.bytes(K * T);
+        let cfg = Oti::new((K * T) as u64, T as u16, 1, 1, 1);
+        let enc = SourceBlockEncoder::new(0, &cfg, &data);
+        let lost = rng.range(1, (K as u64).min(3)) as usize;
+        let mut ids: Vec<u32> = (lost as u32..K as u32).collect();
+        let extra = rng.below(3) as usize + if rng.chance(1, 3) { 12 } else { 0 };
+        for r in 0..(lost + extra) as u32 {
+            ids.push(K as u32 + r);
+        }
+        let src = enc.source_packets();
+        let mut pk: Vec<EncodingPacket> = ids.iter().map(|&e| if (e as usize) < K { src[e as usize].clone() } else { enc.repair_packets(e - K as u32, 1).pop().unwrap() }).collect();
+        // 1-2 packets get a payload of the wrong length: the last source symbol present, the last
+        // repair packet, the first packet or a random one; longer by 1, 8, T, 64, 1000 bytes or shorter
+        for _ in 0..rng.range(1, 2) {
+            let last_src = ids.iter().rposition(|&e| (e as usize) < K);
+            let which = match rng.below(4) {
+                0 => last_src.unwrap_or(0),
+                1 => pk.len() - 1,
+                2 => 0,
+                _ => rng.below(pk.len() as u64) as usize,
+            };
+            let (id, mut payload) = pk[which].clone().split();
+            if rng.chance(3, 4) {
+                let add = *rng.pick(&[1usize, 8, T, 64, 1000]);
+                payload.extend(rng.bytes(add));
+            } else {
+                payload.truncate(rng.below(T as u64) as usize);
+            }
+            pk[which] = EncodingPacket::new(id, payload);
+        }
+        if rng.chance(1, 2) {
+            rng.shuffle(&mut pk);
+        }
+        let one_by_one = rng.chance(1, 2);
+        let r = guarded(|| {
+            let mut d = SourceBlockDecoder::new(0, &cfg, (K * T) as u64);
+            if one_by_one {
+                let mut last = None;
+                for p in pk.clone() {
+                    last = d.decode(std::iter::once(p));
+                }
+                last
+            } else {
+                d.decode(pk.clone())
+            }
+        });
+        match r {
+            Err(_) => {
+                refused.fetch_add(1, Relaxed);
+            }
+            Ok(v) => {
+                answered.fetch_add(1, Relaxed);
+                if let Some(v) = v {
+                    if v.len() != K * T {
+                        ctx.violation(format!("C12 hostile block-answer-length K={K} T={T} i={i}"), format!("K={K}, T={T}: a block decoder fed a packet with a malformed payload returned {} bytes for a {}-byte block", v.len(), K * T), J::obj(vec![("kind", J::s("hostile")), ("idx", J::i(i))]));
+                    }
+                }
+            }
+        }
+        // ---- the same through the object decoder (two blocks), plus a block number out of range ----
+        if i % 3 == 0 {
+            let F = 2 * K * T - rng.below(T as u64) as usize;
+            let data2 = rng.bytes(F);
+            let cfg2 = Oti::new(F as u64, T as u16, 2, 1, 1);
+            let r = guarded(|| {
+                let enc2 = Encoder::new(&data2, cfg2);
+                let mut all = enc2.get_encoded_packets(3);
+                let w = rng.below(all.len() as u64) as usize;
+                let (id, mut payload) = all[w].clone().split();
+                let add = *rng.pick(&[1usize, 8, 64]);
+                payload.extend(rng.bytes(add));
+                all[w] = EncodingPacket::new(id, payload);
+                if rng.chance(1, 4) {
+                    let (_, pl) = all[0].clone().split();
+                    all.push(EncodingPacket::new(raptorq::PayloadId::new(7, 0), pl));
+                }
+                // drop two source packets so that the solver runs
+                all.remove(1);
+                let mut d = Decoder::new(cfg2);
+                let mut out = None;
+                for p in all {
+                    out = d.decode(p);
+                }
+                out
+            });
+            match r {
+                Err(_) => {
+                    refused.fetch_add(1, Relaxed);
+                }
+                Ok(v) => {
+                    answered.fetch_add(1, Relaxed);
+                    if let Some(v) = v {
+                        if v.len() != F {
+                            ctx.violation(format!("C12 hostile object-answer-length F={F} T={T} i={i}"), format!("F={F}, T={T}: an object decoder fed a packet with a malformed payload returned {} bytes", v.len()), J::obj(vec![("kind", J::s("hostile")), ("idx", J::i(i))]));
+                        }
+                    }
+                }
+            }
+        }
+        // ---- operands of unequal length to the public kernels and the slab ----
+        let la = rng.range(0, 200) as usize;
+        let lb = if rng.chance(1, 2) { la + rng.range(1, 70) as usize } else { la.saturating_sub(rng.range(1, 70) as usize) };
+        if la != lb {
+            for op in [Op::Add, Op::Fma, Op::FmaBin] {
+                let mut d = rng.bytes(la);
+                let s_ = rng.bytes(lb);
+                let bits: Vec<u8> = (0..lb).map(|_| (rng.next() & 1) as u8).collect();
+                let bv = BinaryOctetVec::new(pack_bits(&bits), lb);
+                let _ = guarded(|| call(None, op, &mut d, &s_, Some(&bv), 7));
+                kernel_probes.fetch_add(1, Relaxed);
+            }
+        }
+        {
+            let ss = rng.range(1, 70) as usize;
+            let cnt = rng.range(1, 6) as usize;
+            let mut slab = SymbolSlab::with_zeros(cnt, ss);
+            let _ = guarded(|| slab.copy_block_from(cnt - 1, &rng.bytes(2 * ss)));
+            let _ = guarded(|| slab.add_assign(0, cnt));
+            let _ = guarded(|| slab.fma(cnt + 1, 0, &Octet::new(3)));
+            let _ = guarded(|| slab.gather(&[0, cnt]).len());
+            let _ = guarded(|| {
+                slab.set_reorder((0..cnt).map(|x| x + 1).collect());
+                slab.get_mut(cnt - 1)[0] = 1;
+                slab.mulassign_scalar(cnt - 1, &Octet::new(9));
+            });
+            kernel_probes.fetch_add(5, Relaxed);
+        }
+        ctx.eval(1);
+        ctx.nontrivial(0x4057_0000 + i as u64);
+    });
+    ctx.cov("hostile_cases", J::i(n));
+    ctx.cov("hostile_decodes_refused_by_panic", J::i(refused.load(Relaxed)));
+    ctx.cov("hostile_decodes_answered", J::i(answered.load(Relaxed)));
+    ctx.cov("hostile_kernel_and_slab_probes", J::i(kernel_probes.load(Relaxed)));
 }
 
 pub fn run(ctx: &Ctx) -> i32 {
@@ -477,6 +630,10 @@ pub fn run(ctx: &Ctx) -> i32 {
             "codec" => {
                 codec(ctx);
                 rule += "codec: whole encode/decode cases from the C01 generator (all decoder returns checked). ";
+            }
+            "hostile" => {
+                hostile(ctx);
+                rule += "hostile: block and object decoders fed encoder packets of which one or two carry a payload longer or shorter than the symbol size (last source symbol, last repair packet, first, random; batch or packet by packet), a block number out of range, the public kernels and the slab called with operands of unequal length / indices out of range: refusing by panic or answering are both accepted, the memory monitor must stay silent and an answer must have exactly the transfer length. ";
             }
             "matrix" => {
                 matrix(ctx);
